@@ -253,16 +253,51 @@ func (ex *Exec) monitorEnter(st *State, fr *Frame, p *PtrV, mode int, pos token.
 		if m != mu {
 			continue
 		}
-		for class := range classSorts {
-			if class == tn+"."+f || strings.HasPrefix(class, tn+"."+f+"@") || strings.HasPrefix(class, tn+"."+f+".") || strings.HasPrefix(class, tn+".$"+f) {
-				h := st.heapGet(class, classSorts[class])
-				if h.Sort.Kind == KArr && h.Sort.Idx == SInt {
-					st.heapSet(class, Store(h, owner, Fresh("mon:"+class, h.Sort.Elem)))
+		if !ts.Immutable[f] {
+			for class := range classSorts {
+				if class == tn+"."+f || strings.HasPrefix(class, tn+"."+f+"@") || strings.HasPrefix(class, tn+"."+f+".") {
+					h := st.heapGet(class, classSorts[class])
+					if h.Sort.Kind == KArr && h.Sort.Idx == SInt {
+						st.heapSet(class, Store(h, owner, Fresh("mon:"+class, h.Sort.Elem)))
+					}
+				}
+			}
+		}
+		// a guarded map field: the lock guards the map's contents
+		if ft := ex.fieldTypeByName(tn, f); ft != nil {
+			if _, isMap := under(ft).(*types.Map); isMap {
+				mref := Select(st.heapGet(tn+"."+f, SArr(SInt, SInt)), owner)
+				for class, srt := range classSorts {
+					if strings.HasPrefix(class, mapClass(ft)+"#") && srt.Kind == KArr && srt.Idx == SInt {
+						h := st.heapGet(class, srt)
+						st.heapSet(class, Store(h, mref, Fresh("mon:"+class, srt.Elem)))
+					}
 				}
 			}
 		}
 	}
 	ex.assumeTypeInvariant(st, fr, ts, owner, tn)
+}
+
+func (ex *Exec) fieldTypeByName(tn, f string) types.Type {
+	parts := strings.SplitN(tn, ".", 2)
+	if len(parts) != 2 {
+		return nil
+	}
+	for _, pk := range ex.P.ByPath {
+		if pk.Types.Name() == parts[0] {
+			if o := pk.Types.Scope().Lookup(parts[1]); o != nil {
+				if st, ok := under(o.Type()).(*types.Struct); ok {
+					for i := 0; i < st.NumFields(); i++ {
+						if st.Field(i).Name() == f {
+							return st.Field(i).Type()
+						}
+					}
+				}
+			}
+		}
+	}
+	return nil
 }
 
 func (ex *Exec) assumeTypeInvariant(st *State, fr *Frame, ts *TypeSpec, owner *Term, tn string) {
